@@ -1404,7 +1404,7 @@ Qed.
 Lemma cw_none_of_wpending m u c : Inv m -> hget m u = Some c -> wpending m (c_cw c) = false -> c_cw c = None.
 Proof. apply wpending_none. Qed.
 
-Lemma inv_recv_conf_rsp m h id scid result : Inv m -> Inv (fst (recv_conf_rsp m h id scid result)).
+Lemma inv_recv_conf_rsp m h id scid result sugg : Inv m -> Inv (fst (recv_conf_rsp m h id scid result sugg)).
 Proof.
   intros I. unfold recv_conf_rsp.
   destruct (find_cl m h scid) as [[u c]|] eqn:Ef; [|auto].
@@ -1416,7 +1416,8 @@ Proof.
   - destruct (c_st c) eqn:Es; cbn [fst]; auto.
     + apply (inv_cl_st0 m u c SWaitConfigReq); auto; rewrite Hdw by (now rewrite Es); congruence.
     + apply inv_cl_open; auto.
-  - destruct (Z.eqb result CONF_UNACCEPTABLE); cbn [fst]; auto using inv_next_id.
+  - destruct (Z.eqb result CONF_UNACCEPTABLE); cbn [fst]; auto.
+    destruct (Z.eqb sugg 0); cbn [fst]; auto using inv_next_id.
 Qed.
 
 Lemma inv_recv_conf_req m h id dcid rfc bad : Inv m -> Inv (fst (recv_conf_req m h id dcid rfc bad)).
@@ -3111,8 +3112,8 @@ Proof.
       try (intros w; left; autorewrite with acc; reflexivity).
 Qed.
 
-Lemma sc_recv_conf_rsp b m h id scid result :
-  Inv m -> b <> h -> same_conn b m (fst (recv_conf_rsp m h id scid result)).
+Lemma sc_recv_conf_rsp b m h id scid result sugg :
+  Inv m -> b <> h -> same_conn b m (fst (recv_conf_rsp m h id scid result sugg)).
 Proof.
   intros I Hn. unfold recv_conf_rsp.
   destruct (find_cl m h scid) as [[u c]|] eqn:Ef; [|apply sc_refl].
@@ -3121,7 +3122,8 @@ Proof.
   - destruct (c_st c); try apply sc_refl; cbn [fst];
       apply (sc_one b (c_conn c) m _ u c); auto; try sc_wait I Hu; try sc_tab; try sc_self Hu;
       try (intros w; left; autorewrite with acc; reflexivity).
-  - destruct (Z.eqb result CONF_UNACCEPTABLE); [|apply sc_refl]. cbn [fst].
+  - destruct (Z.eqb result CONF_UNACCEPTABLE); [|apply sc_refl].
+    destruct (Z.eqb sugg 0); [apply sc_refl|]. cbn [fst].
     apply sc_intro; try sc_tab; try (intros; left; autorewrite with acc; reflexivity).
 Qed.
 
